@@ -378,6 +378,18 @@ def eraseOp (g : Cfg) (r : R) : Resp.Op → Option (Env × Op)
 
 def eraseBuf (b : Option Resp.Bytes) : Option Nat := b.map (·.length)
 
+/-- the simulation relation between the byte-level model and the twin: same buffers present with the same
+lengths, same counters and flags.  No lemma proves that `Resp.step` and `Own.step ∘ eraseOp` preserve it; the
+driver EVALUATES it after every operation of every case (a violation is printed and fails the comparison) and
+prints the twin's owner fields, which are compared with the owner fields of the real Response. -/
+def sim (r : R) (o : O) : Bool :=
+  o.buffer.map (·.2) == eraseBuf r.buffer && o.bodyBuffer.map (·.2) == eraseBuf r.bodyBuffer &&
+  o.bodyWritten == r.bodyWritten && o.headEncoded == r.headEncoded && o.attempts == r.attempts
+
+def showOwn (o : O) : String :=
+  let f : Option Buf → String := fun | some (id, n) => s!"{id}:{n}" | none => "-"
+  s!"{f o.buffer}/{f o.bodyBuffer}"
+
 def showEv : Ev → String
   | .malloc id n => s!"m{id}:{n}"
   | .append id => s!"a{id}"
